@@ -90,9 +90,39 @@ T.update({
  'C20-C': ('C20', 'shuffle_sequence appends a single residue instead of the tail slice', 'method shuffle + target ending in >= 2 consecutive fixed positions', [], []),
  'C20-D': ('C20', 'suffix decoy header built from seq.id', '--decoy-string-position suffix + header containing blanks', [], []),
 })
+
+# round 3 (E/F): third set of sub-agents, told what rounds 1 and 2 had used
+T.update({
+ 'C01-E': ('C01', 'call_peptide_circ_rna no longer passes w2f to call_variant_peptides', 'circRNA record + --w2f-reassignment + a circRNA peptide containing W', [], []),
+ 'C01-F': ('C01', 'gather_data_for_call_variant uses the donor transcript\'s chromosome for every sequence it fetches', 'fusion whose partners lie on different chromosomes: acceptor sequence sliced from the wrong chromosome', [], []),
+ 'C02-E': ('C02', 'create_variant_graph searches adjacent-variant MNVs in the unfiltered record list', 'two adjacent SNVs, the first on the 2nd or 3rd base of the start codon (records on the start codon are filtered one by one but return inside the merged MNV): peptides of a molecule without start codon', [], []),
+ 'C02-F': ('C02', 'fit_into_cleavage_multiple_upstream drops the cleavage exception at the second cut of a shared node', 'trypsin with its exception + a variant bubble followed by a shared node with >= 2 sites and an exception motif between them + another variant downstream', [], []),
+ 'C03-E': ('C03', 'PVGCollapseNode.__eq__ no longer compares the in-frame indel sets', 'in-frame indel inside a run of identical residues (K deleted from R-K-K-H), not codon aligned, and a second variant within miscleavage reach: indel id printed on peptides without the indel', [], []),
+ 'C03-F': ('C03', 'apply_fusion selects acceptor variants by gene as well as by transcript', 'fusion between two isoforms of one gene with different exon structure upstream of a variant: another isoform\'s record applied at the wrong base and named in the header', [], []),
+ 'C05-E': ('C05', 'same MNV search change as C01-D (delivered independently for C05)', 'adding a third record anchored at the first of two adjacent SNVs removes the both-SNV peptide', [], []),
+ 'C05-F': ('C05', 'same dispatch-loop change as C07-C (delivered independently for C05)', '--threads >= 2 and a GVF added whose only record is intronic on the last transcript: the pending batch is dropped', [], []),
+ 'C06-F': ('C06', 'register_canonical_pool numbers the second pool 1 again (same file as the first)', 'generateIndex(trypsin); updateIndex(lysc); callVariant --index-dir with trypsin loads the lysc pool', [], []),
+ 'C07-E': ('C07', 'create_variant_graph rewrites a start-codon indel to end inclusion only in graphs without fusion', 'indel on the last base of the start codon + fusion with that donor + the main unit failing under --skip-failed (the units share the record object, which the main unit normally rewrites first)', [], []),
+ 'C07-F': ('C07', 'STARFusionParser: genome lookup moved into the try block that maps KeyError to GeneNotFoundError', 'STAR-Fusion row with valid genes on a contig absent from the genome FASTA: silently skipped without --skip-failed, tallied as invalid gene id', [], []),
+ 'C10-E': ('C10', 'get_canonical_pool treats a stored exception of None as matching any requested exception', 'generateIndex -c lysc; updateIndex -c lysc --cleavage-exception trypsin_exception: "already exists", --force overwrites the first pool', [], []),
+ 'C10-F': ('C10', 'create_unique_peptide_pool strips X from both ends of the protein', 'protein that starts and ends with X (cds_start_NF + cds_end_NF): C-terminal fragment enters the pool as a complete peptide', [], []),
+ 'C12-E': ('C12', 'get_canonical_pool ignores requested parameters whose value is falsy', 'generateIndex -m 2; load / updateIndex with miscleavage 0 (or min_mw 0): foreign pool returned, --force overwrites it', [], []),
+ 'C12-F': ('C12', 'generateIndex no longer forwards invalid_protein_as_noncoding (default True in save_annotation)', 'proteome entry with an internal * and the flag not given: transcript dropped from the coding set, pools of generateIndex and updateIndex disagree', [], []),
+ 'C13-E': ('C13', 'checksum validation skipped when the .idx is newer than the GVF', 'GVF edited after indexing and the .idx touched / copied later: stale pointers used silently', [], []),
+ 'C13-F': ('C13', 'GVFPointer.parse drops the is_circ_rna flag', 'circRNA GVF with an .idx: circRNA lines loaded as bogus variant records (identical text, wrong kind)', [], []),
+ 'C18-E': ('C18', 'create_wildcard_map lets a later wildcard pattern overwrite an earlier one', '--order-source with two overlapping wildcard patterns and a peptide carrying both bases: lands in the lower-priority database', [], []),
+ 'C18-F': ('C18', 'remove_redundant_headers keys entries by backbone only (split instead of rsplit)', 'mergeFasta --dedup-header with two entries of one backbone that differ in variants or ORF: all but the first dropped', [], []),
+})
 # results of the confirmation / re-verification runs (tools/seeded.sh, tools/seeded_recheck.py)
 RES = V/'seeded'/'results.json'
 res = json.loads(RES.read_text()) if RES.exists() else {}
+# first confirmation runs (tools/seeded.sh) leave RESULT files under /tmp: taken over once
+for f in glob.glob('/tmp/seed/results/*/RESULT'):
+    m = re.match(r'RESULT (\S+) .*checks:(.*)', open(f).read().strip())
+    if m and m.group(1) not in res:
+        res[m.group(1)] = dict(applies_at='(first confirmation run)', checks={a: int(b)
+            for a, b in (x.split(':rc=') for x in m.group(2).split())})
+RES.write_text(json.dumps(res, indent=1, sort_keys=True) + '\n')
 rows = []
 for key, (prop, change, needs, caught, missed) in sorted(T.items()):
     d = V/'seeded'/key
